@@ -389,9 +389,10 @@ def monitor_single_continuation(w: World) -> tuple[str, Any] | None:
     befores: Counter = Counter()
     for r in w.q("SELECT parent_stage_id FROM stage_executions WHERE parent_stage_id IS NOT NULL AND synthetic_stage_owner = 'STAGE_BEFORE'"):
         befores[r[0]] += 1
+    first_tasks = {r[0] for r in w.q("SELECT id FROM task_executions WHERE stage_start = 1")}
     for tid, n in pushed.items():
         sid = stage_of[tid]
-        if n > max(1, starts[sid]) * max(1, befores[sid]):
+        if n > max(1, starts[sid]) * (max(1, befores[sid]) if tid in first_tasks else 1):
             ref = next((r for r, i in w.refs.items() if i == sid), sid)
             return ("StartTask_queued_twice_for_one_start/%s" % ref, {"stage": ref, "task_id": tid, "StartTask_pushed": n, "stage_starts": starts[sid]})
     return None
